@@ -21,7 +21,7 @@ ASSUMPTIONS = ['visibility model: all four sensors within +-60 deg horizontal / 
 REQUIRED = ['mon.rooms_solved', 'mon.bs_poses_compared', 'mon.cf_poses_compared', 'mon.matcher_groups_checked',
             'mon.unlinkable_rooms', 'mon.partial_visibility_rooms', 'mon.tight_time_layouts', 'mon.matcher_streams',
             'mon.matcher_streams_with_pause_shorter_than_window', 'mon.rooms_with_windows_of_three_base_stations', 'mon.axis_aligned_rooms',
-            'mon.pose_averages_of_near_identical_estimates_checked', 'mon.chain_visibility_rooms']
+            'mon.pose_averages_of_near_identical_estimates_checked', 'mon.chain_visibility_rooms', 'mon.chain_rooms_walked_back_and_forth']
 DESC_TIMEOUT = 1800
 
 
@@ -202,6 +202,8 @@ def run_room(ctx, rseed, mode):
         ctx.count('mon.axis_aligned_rooms')
     if mode == 'chain':
         ctx.count('mon.chain_visibility_rooms')
+        if rm.get('order') == 'back-and-forth':
+            ctx.count('mon.chain_rooms_walked_back_and_forth')
     ctx.count('worst_translation_nm', 0)
     ctx.nontrivial((mode, rseed))
     return (worst_t, worst_r, len(rm['ids']), len(ks))
